@@ -3,7 +3,10 @@
    deserialize (floats as their bit patterns).  [wfb s]: a state serialize() can be applied to after
    its own compress(): empty buffer, k in 10..65535, finite means, weights in 1..2^64-1 with
    centroids_weight = their sum < 2^64, fewer than 2^32 centroids, min / max not NaN; an empty digest is
-   TDigestMut::new(k); a digest of total weight 1 is one unit centroid sitting on min = max. *)
+   TDigestMut::new(k).  Nothing is assumed about a digest of total weight 1: when its one sample is not min,
+   max and the centroid at once (possible only after deserializing such an image) the REPAIRED writer
+   uses the general form (tdb_is_single, Model/TDigestCodec.v; the unrepaired one wrote min alone and the
+   round trip changed the digest: fixed defect tdigest-C11-one-sample-form). *)
 From DS Require Import Base.Prelude Base.TDigestBits Model.TDigestCodec Proofs.TDigestCodec.
 Open Scope N_scope.
 
@@ -30,6 +33,5 @@ Proof.
   - split; [vm_compute; reflexivity|apply (proj1 (N.ltb_lt _ _)); vm_compute; reflexivity].
   - split; [apply (proj1 (N.ltb_lt _ _)); vm_compute; reflexivity|vm_compute; reflexivity].
   - split; [apply (proj1 (N.ltb_lt _ _)); vm_compute; reflexivity|vm_compute; reflexivity].
-  - discriminate.
   - discriminate.
 Qed.
